@@ -1004,3 +1004,209 @@ func unaryErrorStatus(c *core.Ctx) {
 	})
 	c.Check(len(probs) == 0 && errPaths > 0, "error-path", fd.Pos(), "%d error path(s): application/json, then WriteHeader(connectCodeToHTTP(CodeOf(err))), then the body%s", errPaths, joinProblems(probs))
 }
+
+func init() {
+	register(&core.Rule{ID: "no-recode", Run: noRecode,
+		Doc: "An error obtained from the transport (a Read/Write/Copy/Receive-style call) is given a new code (NewError/errorf wrapping it) only on paths where asError found it uncoded: an already coded error - notably canceled / deadline_exceeded from the context checks - keeps its code. duplexHTTPCall.Read classifies the body's read error with wrapIfContextError before returning it."})
+}
+
+func noRecode(c *core.Ctx) {
+	p := c.P
+	info := p.Connect.TypesInfo
+	errT := types.Universe.Lookup("error").Type()
+	// callees whose errors are never coded connect errors (pure decoders/encoders, constructors)
+	neverCoded := func(f *types.Func, call *ast.CallExpr) bool {
+		if f == nil {
+			// function values: codec-shaped unmarshal
+			return true
+		}
+		if f.Pkg() != nil {
+			switch f.Pkg().Path() {
+			case "strconv", "encoding/json", "encoding/base64", "net/url", "net/http", "fmt", "errors", "net/textproto", "bufio",
+				"google.golang.org/protobuf/proto", "google.golang.org/protobuf/types/known/anypb", "google.golang.org/protobuf/encoding/protojson":
+				return true
+			}
+		}
+		switch f.Name() {
+		case "Marshal", "Unmarshal", "getCompressor", "getDecompressor", "putCompressor", "putDecompressor", "detailsAsAny", "grpcStatusFromError",
+			"DecodeBinaryHeader", "Reset", "WriteByte", "UnmarshalText", "Decompress", "Compress":
+			return true
+		}
+		// in-memory sources: ReadFrom / Copy whose source is a bytes.Buffer or a (de)compressor working on one
+		return false
+	}
+	exceptions := map[string]string{
+		"connectUnaryUnmarshaler.UnmarshalFunc/discardedBytes": "over-limit branch: the call already fails with the documented over-limit error; the discard's failure only changes the text",
+		"compressionPool.Decompress":                           "reads from an in-memory buffer through the decompressor, never from the transport",
+		"compressionPool.Compress":                             "writes into an in-memory buffer",
+		"envelopeReader.Unmarshal":                             "copies between in-memory buffers",
+		"newDuplexHTTPCall":                                    "http.NewRequestWithContext's error",
+		"wrapIfRSTError":                                       "classifier itself: runs after the asError early return",
+		"wrapIfContextError":                                   "classifier itself",
+		"wrapIfUncoded":                                        "classifier itself: wraps only what asError found uncoded",
+		"validateRequestURL":                                   "url parse error",
+		"grpcHandler.SetTimeout":                               "timeout parse error",
+	}
+	sites := 0
+	for _, fd := range p.AllFuncDecls(p.Connect) {
+		name := core.FuncName(fd)
+		idx := 0
+		for _, call := range astx.CallsDeep(fd.Body) {
+			f := astx.CalleeFunc(info, call)
+			if f == nil || f.Pkg() == nil || f.Pkg().Path() != core.ConnectPath || (f.Name() != "NewError" && f.Name() != "errorf") {
+				continue
+			}
+			// wrapped error variables
+			var wrapped []ast.Expr
+			if f.Name() == "NewError" && len(call.Args) == 2 {
+				wrapped = append(wrapped, call.Args[1])
+			}
+			if f.Name() == "errorf" && len(call.Args) >= 3 {
+				if format, ok := astx.ConstString(info, call.Args[1]); ok && strings.Contains(format, "%w") {
+					for _, a := range call.Args[2:] {
+						if t := info.TypeOf(a); t != nil && types.Identical(t, errT) {
+							wrapped = append(wrapped, a)
+						}
+					}
+				}
+			}
+			for _, wv := range wrapped {
+				obj, isVar := astx.ObjOf(info, wv).(*types.Var)
+				if !isVar || obj.IsField() {
+					continue
+				}
+				if _, isParam := paramOf(info, fd, obj); isParam {
+					// wrapping a caller-supplied error: handler/user errors, handled by default-code
+					continue
+				}
+				body := enclosingBody(fd, call)
+				// where does the variable come from?
+				var src *ast.CallExpr
+				ast.Inspect(body, func(x ast.Node) bool {
+					if as, ok := x.(*ast.AssignStmt); ok && len(as.Rhs) == 1 && as.Pos() < call.Pos() {
+						for _, l := range as.Lhs {
+							if astx.ObjOf(info, l) == obj {
+								if sc, ok := astx.Unparen(as.Rhs[0]).(*ast.CallExpr); ok {
+									src = sc
+								}
+							}
+						}
+					}
+					return true
+				})
+				if src == nil {
+					continue
+				}
+				sf := astx.CalleeFunc(info, src)
+				if neverCoded(sf, src) {
+					continue
+				}
+				sites++
+				key := fmt.Sprintf("recode/%s#%d", name, idx)
+				idx++
+				if why, ok := exceptions[name]; ok {
+					c.Ok(key, call.Pos(), "%s wraps the error of %s: exception - %s", name, types.ExprString(src.Fun), why)
+					continue
+				}
+				if why, ok := exceptions[name+"/"+assignedName(info, body, src)]; ok {
+					c.Ok(key, call.Pos(), "%s wraps the error of %s: exception - %s", name, types.ExprString(src.Fun), why)
+					continue
+				}
+				bad, n := 0, 0
+				astx.ForEachPathTo(info, body, call, func(s *astx.State) {
+					n++
+					uncoded := false
+					for _, st := range s.Steps {
+						if as, ok := st.(*ast.AssignStmt); ok && len(as.Rhs) == 1 && len(as.Lhs) == 2 {
+							if ac, ok := as.Rhs[0].(*ast.CallExpr); ok {
+								if af := astx.CalleeFunc(info, ac); af != nil && af.Name() == "asError" && len(ac.Args) == 1 && astx.ObjOf(info, ac.Args[0]) == obj {
+									okObj := astx.ObjOf(info, as.Lhs[1])
+									if s.HasFact(func(e ast.Expr, pol bool) bool { return !pol && astx.ObjOf(info, e) == okObj }) {
+										uncoded = true
+									}
+								}
+							}
+						}
+					}
+					// an error that is io.EOF is the end of the stream, not a context error
+					isEOF := s.HasFact(func(e ast.Expr, pol bool) bool {
+						xe, target, ok := astx.IsErrorsIs(info, e)
+						return ok && pol && astx.ObjOf(info, xe) == obj && astx.IsPkgVar(info, target, "io", "EOF")
+					})
+					if !uncoded && !isEOF {
+						bad++
+					}
+				})
+				c.Check(bad == 0 && n > 0, key, call.Pos(), "%s gives the error of %s a new code only after asError found it uncoded (%d of %d path(s) lack that test: a canceled / deadline_exceeded error would be overwritten)", name, types.ExprString(src.Fun), bad, n)
+			}
+		}
+	}
+	c.Floor("sites that code a transport error", sites, 5)
+	// duplexHTTPCall.Read: body read error passes through wrapIfContextError
+	if fd := fn(p, "duplexHTTPCall.Read"); fd != nil {
+		var bodyRead *ast.CallExpr
+		for _, call := range astx.Calls(fd.Body) {
+			if sel, ok := call.Fun.(*ast.SelectorExpr); ok && sel.Sel.Name == "Read" {
+				if inner, ok := astx.Unparen(sel.X).(*ast.SelectorExpr); ok && inner.Sel.Name == "Body" {
+					bodyRead = call
+				}
+			}
+		}
+		if bodyRead == nil {
+			c.Undecided("Read/body-read", fd.Pos(), "response.Body.Read call not found")
+		} else {
+			errObj := resultObj(info, fd.Body, bodyRead, 1)
+			good := false
+			for _, ret := range astx.Returns(fd.Body) {
+				if len(ret.Results) == 2 && astx.Mentions(info, ret.Results[1], errObj) {
+					for _, call := range astx.Calls(ret.Results[1]) {
+						if cf := astx.CalleeFunc(info, call); cf != nil && cf.Name() == "wrapIfContextError" {
+							good = true
+						}
+					}
+				}
+			}
+			// or reassigned through it before the return
+			ast.Inspect(fd.Body, func(x ast.Node) bool {
+				if as, ok := x.(*ast.AssignStmt); ok && len(as.Lhs) == 1 && len(as.Rhs) == 1 && astx.ObjOf(info, as.Lhs[0]) == errObj {
+					if call, ok := as.Rhs[0].(*ast.CallExpr); ok {
+						if cf := astx.CalleeFunc(info, call); cf != nil && cf.Name() == "wrapIfContextError" {
+							good = true
+						}
+					}
+				}
+				return true
+			})
+			c.Check(good, "Read/context-classified", bodyRead.Pos(), "the error of response.Body.Read is classified with wrapIfContextError before it is returned to protocol code")
+		}
+	} else {
+		c.Unresolved("duplexHTTPCall.Read", "not found")
+	}
+}
+
+func paramOf(info *types.Info, fd *ast.FuncDecl, obj types.Object) (int, bool) {
+	i := 0
+	for _, f := range fd.Type.Params.List {
+		for _, n := range f.Names {
+			if info.Defs[n] == obj {
+				return i, true
+			}
+			i++
+		}
+	}
+	return 0, false
+}
+
+// assignedName returns the name of the first variable the call's results are assigned to.
+func assignedName(info *types.Info, body ast.Node, call *ast.CallExpr) string {
+	name := ""
+	ast.Inspect(body, func(x ast.Node) bool {
+		if as, ok := x.(*ast.AssignStmt); ok && len(as.Rhs) == 1 && astx.Unparen(as.Rhs[0]) == ast.Expr(call) && len(as.Lhs) > 0 {
+			if id, ok := as.Lhs[0].(*ast.Ident); ok {
+				name = id.Name
+			}
+		}
+		return true
+	})
+	return name
+}
